@@ -1,7 +1,7 @@
 import TapkeeVerif.Proofs.CoverDescend
 /-!
 C02, cover tree batch query, part 8: `copy_cover_sets` over all scales, the recursion
-`internal_batch_nearest_neighbor`, and **`cover_query_exact_partial`**.
+`internal_batch_nearest_neighbor`, and the partial-correctness half of **`cover_query_exact`** (that the model answers: `Proofs/CoverFuel.lean`).
 -/
 namespace TapkeeVerif.CoverTree
 open List TapkeeVerif.VpTree
@@ -407,7 +407,7 @@ theorem internalBatch_good (hm : IsMetric δ) (hK : 1 ≤ K0) (leafScale : Nat) 
               exact ⟨by omega, this⟩
         exact internalBatch_good hm hK leafScale hperm fuel Q _ _ _ _ _ Off' res hInv' h
 
-/-- **`cover_query_exact_partial`** : on a well-formed tree over the samples `0..N-1`, for every metric, if the batch
+/-- partial-correctness half of **`cover_query_exact`** : on a well-formed tree over the samples `0..N-1`, for every metric, if the batch
     query answers then it returns for every sample `q` at least one result `q :: cands`, and for every result the
     candidate list is duplicate free and contains every sample near `q` (`Near`: no `K0` distinct samples are all
     strictly closer) — which is what `find_neighbors_covertree_impl` needs to select the exact `K0 - 1` nearest
@@ -422,7 +422,7 @@ theorem batchQuery_good (hm : IsMetric δ) (hK : 1 ≤ K0) {N : Nat} (leafScale 
   obtain ⟨⟨⟨hw, hnd⟩, hlen⟩, hall⟩ := hwf
   have hok : NodeOk δ (List.range N) top := ⟨hw, hnd, fun x hx => mem_range.2 (hall x hx)⟩
   have htop : top.p ∈ List.range N := hok.2.2 _ (p_mem_leaves δ top hw)
-  unfold batchQuery at h
+  unfold batchQuery batchQueryFuel at h
   dsimp only at h
   apply internalBatch_good hm hK leafScale hperm _ top _ [] 0 0 _ [top.p] res ?_ h
   have hc0 : (Cover.empty.push 0 ⟨δ top.p top.p, top⟩ : Cover K) 0 = [⟨δ top.p top.p, top⟩] := by
